@@ -53,17 +53,25 @@ ParCSRMatrix* init_matrix(T* A, U* B)
     }
     else
     {
-        if (A->partition->global_num_rows == B->partition->global_num_rows &&
+        // Whether the row (or column) blocks of the two partitions coincide
+        // must be decided by all ranks together: the general case below
+        // builds a new Partition, which is collective
+        int differ[2];
+        differ[0] = !(A->partition->global_num_rows == B->partition->global_num_rows &&
             A->partition->local_num_rows == B->partition->local_num_rows &&
             A->partition->first_local_row == B->partition->first_local_row &&
-            A->partition->last_local_row == B->partition->last_local_row)
+            A->partition->last_local_row == B->partition->last_local_row);
+        differ[1] = !(A->partition->global_num_cols == B->partition->global_num_cols &&
+            A->partition->local_num_cols == B->partition->local_num_cols &&
+            A->partition->first_local_col == B->partition->first_local_col &&
+            A->partition->last_local_col == B->partition->last_local_col);
+        RAPtor_MPI_Allreduce(RAPtor_MPI_IN_PLACE, differ, 2, RAPtor_MPI_INT,
+                RAPtor_MPI_MAX, RAPtor_MPI_COMM_WORLD);
+        if (!differ[0])
         {
             C = init_mat(B);
         }
-        else if (A->partition->global_num_cols == B->partition->global_num_cols &&
-            A->partition->local_num_cols == B->partition->local_num_cols &&
-            A->partition->first_local_col == B->partition->first_local_col &&
-            A->partition->last_local_col == B->partition->last_local_col)
+        else if (!differ[1])
         {
             C = init_mat(A);
         }
